@@ -133,7 +133,7 @@ pub fn run(id: &'static str, tier: Tier, seed: u64) -> Option<Evidence> {
             );
             ev.assume("OS schedules are sampled, not enumerated, and are not a function of the seed (the seed fixes workloads and yield patterns only)");
             ev.assume("realistic failure modes of a forbid(unsafe) crate here are lock-discipline edits (try_lock, lock released between metric and terminator, per-thread buffers), which heavy contention exposes quickly");
-            let c = StressCampaign { name: "stress-shared-client", sinks: &[StressSink::Spy, StressSink::Spy, StressSink::Unix, StressSink::Udp, StressSink::QueuedSpy], judge_errors: false, framing_only: false, greedy_only: false };
+            let c = StressCampaign { name: "stress-shared-client", sinks: &[StressSink::Spy, StressSink::Spy, StressSink::Unix, StressSink::Udp, StressSink::QueuedSpy, StressSink::QueuedSpyBounded], judge_errors: false, framing_only: false, greedy_only: false };
             if driver::run_random(&c, &ev, &ctx, scale(tier.pick(300, 3_000)), 2) {
                 let bf = sockets::BlockedFlushCampaign { name: "unix-flush-behind-blocked-emit" };
                 driver::run_random(&bf, &ev, &ctx, scale(tier.pick(6, 60)), 4);
